@@ -4,8 +4,8 @@ from __future__ import annotations
 from checks import ctxcommon
 
 PROP = "C01"
-GENERATED = ['OpSemantics', 'DtypeTables', 'Core', 'EvalLoop', 'SrcExpand', 'SrcShape', 'DimFlags', 'ShapeLoop', 'ParserTables', 'TokLoop', 'ParseHelpers', 'ParseLoop', 'Wrapper', 'HintLoop', 'Classes', 'Decorate', 'SrcHints', 'SrcDecorate', 'ClassDecor', 'Resolve']  # generated files this check's tie depends on
-LEAN_MODULES = ["Properties.C01", "Properties.C03p", "Properties.Core", "Properties.CoreEval", "Properties.Prov.Expand", "Properties.Prov.Shape", "Properties.CoreShape", "Properties.Tables", "Properties.CoreExpr", "Properties.CoreWrap", "Properties.CoreHints", "Properties.CoreClasses", "Properties.CoreDecorate", "Properties.Prov.Hints", "Properties.Prov.Decorate", "Properties.CoreClassDecor", "Properties.CoreResolve"]
+GENERATED = ['OpSemantics', 'DtypeTables', 'Core', 'EvalLoop', 'SrcExpand', 'SrcShape', 'DimFlags', 'ShapeLoop', 'ParserTables', 'TokLoop', 'ParseHelpers', 'ParseLoop', 'Wrapper', 'HintLoop', 'Classes', 'Decorate', 'SrcHints', 'SrcDecorate', 'ClassDecor', 'Resolve', 'SrcSurface']  # generated files this check's tie depends on
+LEAN_MODULES = ["Properties.C01", "Properties.C03p", "Properties.Core", "Properties.CoreEval", "Properties.Prov.Expand", "Properties.Prov.Shape", "Properties.CoreShape", "Properties.Tables", "Properties.CoreExpr", "Properties.CoreWrap", "Properties.CoreHints", "Properties.CoreClasses", "Properties.CoreDecorate", "Properties.Prov.Hints", "Properties.Prov.Decorate", "Properties.CoreClassDecor", "Properties.CoreResolve", "Properties.Prov.Surface"]
 RULE = (
     "corpus (witnesses of past findings) first; then seeded contexts: pick an assignment of sizes to names a,b,d (c,e derived) and tuples to "
     "groups g,h, pick 1-4 annotated tensors over a 24-form dimension alphabet (literal, name, name=literal, name=expression, expression, "
@@ -25,6 +25,14 @@ def cases(tier, rng, run):
     for _ in range(6000 if tier == "quick" else 100000):
         c = gen_ctx.gen_ctx(rng)
         out.append(Case(c.rand_call(rng, styles=("pos", "kw", "mixed", "kwonly", "posonly"), omit_p=0.5), "call", {"ctx": c}))
+    # ... and as the construction of a decorated NamedTuple / dataclass (fields in any order; the first fields inherited from a base
+    # dataclass, plain or decorated itself) / pydantic model: every annotated field is a tensor of the context, wherever it is declared
+    for _ in range(2500 if tier == "quick" else 40000):
+        c = gen_ctx.gen_ctx(rng, tuple_p=0.0, ret_p=0.0, provider_p=0.0, alias_p=0)
+        if not all(s.value[0] == "T" or (s.value[0] == "N" and s.optional) for p in c.params for s in p.slots):
+            continue
+        kind, style = rng.choice([("nt", "pos"), ("nt", "kw"), ("nt", "kwrev"), ("dc", "pos"), ("dc", "kw"), ("dc", "kwrev"), ("dc", "inherit"), ("dc", "inherit"), ("dc", "inherit2"), ("dc", "inherit2"), ("pyd", "kw"), ("pyd", "kwrev")])
+        out.append(Case(c.call_line(kind, style), "class-form", {"ctx": c}))
     # a name bound in one way and met again in another, zero sizes included (exhaustive small family)
     for c in gen_ctx.rebinding_contexts() + gen_ctx.group_contexts():
         out.append(Case(c.ctx_line(), "rebind", {"ctx": c}))
